@@ -12,6 +12,7 @@ import (
 	"sort"
 	"strconv"
 	"sync"
+	"sync/atomic"
 	"time"
 
 	corev1 "k8s.io/api/core/v1"
@@ -320,6 +321,7 @@ type fakeWatch struct {
 	sent      int
 	delivered int // highest history version handed to the stream (guarded by s.mu)
 	ctx       context.Context
+	closeNow  int32
 }
 
 func (s *FakeServer) Watch(ctx context.Context, opts metav1.ListOptions) (watch.Interface, error) {
@@ -465,10 +467,32 @@ func (w *fakeWatch) hw_pump() {
 		}
 		select {
 		case <-w.kickch:
+			if atomic.LoadInt32(&w.closeNow) != 0 {
+				// the driver asked this (idle) stream to be closed by the server
+				w.closeStream()
+				return
+			}
 		case <-w.stop:
 			return
 		case <-w.ctx.Done():
 			return
+		}
+	}
+}
+
+// CloseIdleStreams lets the server close every stream that is connected right now (a watch timeout).
+func (s *FakeServer) CloseIdleStreams() {
+	s.mu.Lock()
+	var ws []*fakeWatch
+	for w := range s.watches {
+		ws = append(ws, w)
+	}
+	s.mu.Unlock()
+	for _, w := range ws {
+		atomic.StoreInt32(&w.closeNow, 1)
+		select {
+		case w.kickch <- struct{}{}:
+		default:
 		}
 	}
 }
@@ -507,6 +531,13 @@ func hasFatalInject(m map[int]string) bool {
 
 // FaultsAhead: how many of the scripted Watch calls still to come end their stream at once or fail to connect,
 // counted up to the first one that does not.
+// ScriptTail replaces the watch script from the next Watch call on.
+func (s *FakeServer) ScriptTail(acts []WatchAct) {
+	s.mu.Lock()
+	defer s.mu.Unlock()
+	s.watchs = append(s.watchs[:s.nWatch:s.nWatch], acts...)
+}
+
 func (s *FakeServer) FaultsAhead() int {
 	s.mu.Lock()
 	defer s.mu.Unlock()
